@@ -57,11 +57,54 @@ def run(ctx):
                                  seed=ctx.seed + 1, timeout=3000)
         ctx.cov['tlc_runs'].append({'label': 'E1 simulation SIM_Collection.cfg', 'behaviours': len(behs), 'depth': depth})
         replay_items(ctx, items_from_sim(behs), 'simulate SIM_Collection.cfg')
+        _impl(ctx, wd, quick)
         _e2(ctx, wd, quick)
     ctx.cov['rule'] = ('every transition of the depth-bounded generation graph replayed (BFS-tree leaves + non-tree edges) plus '
                        'random walks; non-trivial = distinct histories of >= 3 steps ending with at least one dataset and one group')
     ctx.assume('membership compared only when no hub delay block is open; nothing is required of datasets outside the collection')
     ctx.assume('selections are row-index selections (ElementSubsetState) so that one group state has a mask on every dataset')
+
+
+def _impl(ctx, wd, quick):
+    """CollectionImpl.tla: the message-driven bookkeeping of the code. The repaired design satisfies the membership invariant, the
+    two designs of the pinned commit are refuted (otherwise the I-spec would be too weak to see those defects), and the I-spec's
+    behaviours are replayed into the real objects comparing Data.subsets / SubsetGroup.subsets after every step."""
+    suffix = '' if quick else '_thorough'
+    res = tlc.run_tlc(wd, 'MC_CollectionImpl.tla', 'MC_CollectionImpl_fixed%s.cfg' % suffix, timeout=3000)
+    if not res.ok:
+        raise core.MachineryFailure('CollectionImpl.tla (repaired design) violates %s:\n%s' % (res.violated_invariant, res.out[-1500:]))
+    ctx.add_tlc('E0 MC_CollectionImpl_fixed%s.cfg' % suffix, res, 'MC_CollectionImpl_fixed%s.cfg' % suffix)
+    for v in ('noadd', 'norem'):
+        r = tlc.run_tlc(wd, 'MC_CollectionImpl.tla', 'MC_CollectionImpl_%s.cfg' % v, timeout=600)
+        if r.violated_invariant != 'Inv_Membership':
+            raise core.MachineryFailure('CollectionImpl.tla does not refute the %s design (the I-spec is too weak)' % v)
+        ctx.cov['tlc_runs'].append({'label': 'E0 MC_CollectionImpl_%s.cfg (design of the pinned commit)' % v, 'refuted': 'Inv_Membership',
+                                    'counterexample': [str(s.get('act')) for _, s in r.error_trace()][-6:]})
+    gcfg = 'GEN_CollectionImpl%s.cfg' % suffix
+    res, g = tlc.dump_graph(wd, 'MC_CollectionImpl.tla', gcfg, timeout=3000)
+    ctx.add_tlc('E1 generation ' + gcfg, res, gcfg)
+    items = []
+    for p in g.behaviours():
+        steps = []
+        for n in p[1:]:
+            s = g.state(n)
+            steps.append({'act': to_json(s['act']), 'st': {'coll': [str(x) for x in s['coll']], 'groups': sorted(int(x) for x in s['groups']),
+                                                             'dsub': {str(k): [int(x) for x in v] for k, v in s['dsub'].items()},
+                                                             'gsub': {str(k): [str(x) for x in v] for k, v in (s['gsub'].items() if hasattr(s['gsub'], 'items') else enumerate(s['gsub'], 1))},
+                                                             'queue': len(s['queue']), 'delay': int(s['delay'])}})
+        items.append({'steps': steps})
+    del g
+    ctx.check_ops(gcfg, items, ['Append', 'Remove', 'NewGroup', 'RemoveGroup', 'DelayEnter', 'DelayExit'])
+    replay_items_impl(ctx, items, 'graph ' + gcfg)
+
+
+def replay_items_impl(ctx, items, label):
+    res = core.sharded('harness.adapters.collimpl', 'replay_chunk', items)
+    ctx.add_replayed(len(items), sum(r['steps'] for r in res), sum(1 for it in items if any(s['st']['delay'] > 0 and s['st']['queue'] > 0 for s in it['steps'])))
+    for r in res:
+        for d in r['div']:
+            ctx.report(core.Divergence.from_json(d))
+    ctx.sample({'source': label, 'acts': [s['act']['op'] + ':' + str(s['act']['d'] if s['act']['d'] != '-' else s['act']['g']) for s in items[len(items) // 2]['steps']]})
 
 
 REPO_TESTS_QUICK = ['glue/core/tests/test_subset_group.py', 'glue/core/tests/test_data_collection.py', 'glue/core/tests/test_command.py',
@@ -125,6 +168,17 @@ def replay(div):
             return 0
         print('VIOLATION property=C06 replay=(given)')
         print('  first unmatched event %d' % rejected[0][1])
+        return 1
+    if div.behaviour.get('spec') == 'CollectionImpl':
+        from harness.adapters import collimpl
+        from harness.core import use_repo
+        use_repo()
+        r = collimpl.replay_one(div.behaviour)
+        if r is None:
+            print('replay: behaviour conforms')
+            return 0
+        print('VIOLATION property=C06 replay=(given)')
+        print('  step %s %s: expected %s got %s (%s)' % r)
         return 1
     res = A.replay_one(div.behaviour)
     if res is None:
